@@ -19,7 +19,9 @@ RULE = ('every operator/helper instance (13 WireVector operators, invert, getite
         'amount and by int amount 1..w-1, barrel_shifter with bit_in=1) x operand kinds {WireVector, int, '
         'bool, Verilog string, Const signed/unsigned/with bitwidth} x width pairs; operand values exhaustive '
         'for widths <= 4 (quick) / <= 5 (thorough), boundary values (0,1,2^k-1,2^(k-1),2^(k-1)-1,random) '
-        'for widths up to 130; int / Const(int) / Verilog-string operands k in {2^n-2..2^n+1} for n in {31,32,33,48,49,50,'
+        'for widths up to 130; every WireVector operand kind (plain wire, Register, lazily materialised MemBlock / RomBlock '
+        'read) on either side of every operator; shared argument lists reused by several calls in one design (and '
+        'checked for mutation); int / Const(int) / Verilog-string operands k in {2^n-2..2^n+1} for n in {31,32,33,48,49,50,'
         '52,53,54,63,64,65,100,128} (Const(k) len, a+k, a-k, a&k, a*k, concat(a,k), w <<= k for w of n..n+2 bits); slices with bounds in {None,-n-1..n+1} and steps {None,1,2,-1,-2} (all of '
         'them for n <= 4/5, seeded samples above).  A case = (instance, widths, operand values); distinct by '
         'that key; non-trivial when the instance\'s output takes at least two values over the sweep')
@@ -246,6 +248,21 @@ def binary_instances(wa, wb):
                   lambda va, vb: ((((va << wb) | vb) << wa) | va, 2 * wa + wb)))
     L.append(Inst('concat_list', 'concat', 'pyrtl.concat_list([a, b])', 'S1 (concat_list [a; b])',
                   lambda va, vb: ((vb << wa) | va, wa + wb)))
+    # the same Python containers (env: L2 = [a, b], L3 = [a, b, a], T2 = (a, b)) handed to several calls of one
+    # design: every use must give the documented order, and no call may change its argument containers
+    cl2 = lambda va, vb: ((vb << wa) | va, wa + wb)
+    cl3 = lambda va, vb: ((((va << wb) | vb) << wa) | va, 2 * wa + wb)
+    c2 = lambda va, vb: ((va << wb) | vb, wa + wb)
+    for use in (1, 2, 3):
+        L.append(Inst('concat_list:shared-list:use%d' % use, 'concat', 'pyrtl.concat_list(L2)',
+                      'S1 (concat_list [a; b])', cl2))
+        L.append(Inst('concat:*shared-list:use%d' % use, 'concat', 'pyrtl.concat(*L2)', 'S1 (concat [a; b])', c2))
+        L.append(Inst('concat_list:shared-list3:use%d' % use, 'concat', 'pyrtl.concat_list(L3)',
+                      'S1 (concat_list [a; b; a])', cl3))
+    L.append(Inst('concat_list:shared-tuple', 'concat', 'pyrtl.concat_list(T2)', 'S1 (concat_list [a; b])', cl2))
+    L.append(Inst('concat_list:shared-list:in-op', 'concat', 'pyrtl.concat_list(L2) + 1',
+                  'lift2 op_add (OWire (concat_list [a; b])) (OInt 1)',
+                  lambda va, vb: (((vb << wa) | va) + 1, wa + wb + 1)))
     L.append(Inst('select', 'select', 'pyrtl.select(a[0], truecase=a, falsecase=b)',
                   'S1 (select (getitem_d a (IInt 0)) a b)',
                   lambda va, vb: (va if va & 1 else vb, max(wa, wb))))
@@ -398,6 +415,87 @@ def bigconst_instances(wa):
     return L
 
 
+WIRE_OPS = INFIX + ['nand'] + SIGNED
+
+
+def wirekind_instances(wa, wb):
+    """every kind of WireVector the operators accept as an operand, on either side: plain WireVector,
+    Register, lazily materialised memory / ROM read (memory._MemIndexed), against Input / memory read /
+    int / string / Const.  The env of such a design holds wv_a, reg_a, mem_a, rom_a (and *_b): all carry
+    the value of input a (resp. b); memories are identity maps."""
+    A = {'in': ('a', '(OWire a)'), 'wv': ('wv_a', '(OWire a)'), 'reg': ('reg_a', '(OWire a)'),
+         'mem': ('mem_a[a]', '(OLazy a)'), 'rom': ('rom_a[a]', '(OLazy a)')}
+    B = {'in': ('b', '(OWire b)'), 'wv': ('wv_b', '(OWire b)'), 'reg': ('reg_b', '(OWire b)'),
+         'mem': ('mem_b[b]', '(OLazy b)'), 'rom': ('rom_b[b]', '(OLazy b)')}
+    combos = [(x, y) for x in ('wv', 'reg', 'mem', 'rom') for y in ('in', 'mem', 'rom')]
+    combos += [('in', y) for y in ('wv', 'reg', 'mem', 'rom')]
+    L = []
+    for (kx, ky) in combos:
+        (px, cx), (py, cy) = A[kx], B[ky]
+        tag = '%s,%s' % (kx, ky)
+        for op in WIRE_OPS:
+            f = BIN_SPECS[op]
+            lift = 'lift2s' if op in ('signed_add', 'signed_mult') else 'lift2'
+            # a on the left ...
+            L.append(Inst('%s:wirekinds:%s' % (op, tag), 'wirekind', src_op(op, px, py),
+                          '%s %s %s %s' % (lift, COQ_BIN[op], cx, cy), (lambda va, vb, f=f: f(va, vb, wa, wb)),
+                          mul_widths=(wa, wb) if op == '*' else None))
+            # ... and on the right
+            L.append(Inst('%s:wirekinds-swapped:%s' % (op, tag), 'wirekind', src_op(op, py, px),
+                          '%s %s %s %s' % (lift, COQ_BIN[op], cy, cx), (lambda va, vb, f=f: f(vb, va, wb, wa)),
+                          mul_widths=(wa, wb) if op == '*' else None))
+        L.append(Inst('concat2:wirekinds:%s' % tag, 'wirekind', 'pyrtl.concat(%s, %s)' % (px, py),
+                      'lift2 (fun x y => concat [x; y]) %s %s' % (cx, cy), lambda va, vb: ((va << wb) | vb, wa + wb)))
+        L.append(Inst('concat_list:wirekinds:%s' % tag, 'wirekind', 'pyrtl.concat_list([%s, %s])' % (px, py),
+                      'lift2 (fun x y => concat_list [x; y]) %s %s' % (cx, cy),
+                      lambda va, vb: ((vb << wa) | va, wa + wb)))
+        L.append(Inst('select:wirekinds:%s' % tag, 'wirekind', 'pyrtl.select(a[0], %s, %s)' % (px, py),
+                      'lift2 (select (getitem_d a (IInt 0))) %s %s' % (cx, cy),
+                      lambda va, vb: (va if va & 1 else vb, max(wa, wb))))
+        for nm, fn in (('sll', 'shift_left_logical'), ('srl', 'shift_right_logical'), ('sra', 'shift_right_arithmetic')):
+            L.append(Inst('%s:wirekinds:%s' % (nm, tag), 'wirekind', 'pyrtl.%s(%s, %s)' % (fn, px, py),
+                          'lift2 %s %s %s' % (fn, cx, cy), (lambda va, vb, nm=nm: spec_shift(nm, va, wa, vb))))
+    # constants against the non-Input kinds, both sides
+    for kx in ('reg', 'mem', 'rom'):
+        px, cx = A[kx]
+        for kind in (('int', 2), ('vstr', False, 3, 4), ('const', ('int', 5), None, False), ('bool', True)):
+            pk, ck = py_kind(kind), coq_kind(kind)
+            for op in WIRE_OPS:
+                f = BIN_SPECS[op]
+                signed_int = op in ('signed_add', 'signed_mult')
+                c = spec_signed_const(kind) if signed_int else spec_const(kind)
+                lift = 'lift2s' if signed_int else 'lift2'
+                for side in ('r', 'l'):
+                    if side == 'l' and op == 'nand':
+                        continue
+                    x, y = (px, pk) if side == 'r' else (pk, px)
+                    ex, ey = (cx, ck) if side == 'r' else (ck, cx)
+                    if c == 'raise':
+                        spec, mw = (lambda va, vb: 'raise'), None
+                    elif side == 'r':
+                        spec = (lambda va, vb, f=f, c=c: f(va, c[0], wa, c[1]))
+                        mw = (wa, c[1]) if op == '*' else None
+                    else:
+                        spec = (lambda va, vb, f=f, c=c: f(c[0], va, c[1], wa))
+                        mw = (wa, c[1]) if op == '*' else None
+                    L.append(Inst('%s:%s:%s:%s' % (op, side, kx, kind_tag(kind)), 'wirekind', src_op(op, x, y),
+                                  '%s %s %s %s' % (lift, COQ_BIN[op], ex, ey), spec, mul_widths=mw))
+        # unary uses of the same operand kinds
+        L.append(Inst('invert:%s' % kx, 'wirekind', '~%s' % px, 'S1 (op_invert a)',
+                      lambda va, vb: ((1 << wa) - 1 - va, wa)))
+        L.append(Inst('getitem:%s' % kx, 'wirekind', '%s[-1]' % px, 'getitem a (IInt (-1))',
+                      lambda va, vb: (va >> (wa - 1), 1)))
+        L.append(Inst('getitem:slice:%s' % kx, 'wirekind', '%s[::-1]' % px, 'getitem a (ISlice None None (Some (-1)))',
+                      lambda va, vb: spec_getitem(va, wa, slice(None, None, -1))))
+        L.append(Inst('sign_extended:%s' % kx, 'wirekind', '%s.sign_extended(%d)' % (px, wa + 3),
+                      'sign_extended a %d' % (wa + 3), lambda va, vb: (sgn(va, wa) % (1 << (wa + 3)), wa + 3)))
+        L.append(Inst('zero_extended:%s' % kx, 'wirekind', '%s.zero_extended(%d)' % (px, wa + 3),
+                      'zero_extended a %d' % (wa + 3), lambda va, vb: (va, wa + 3)))
+        L.append(Inst('ilshift:%s' % kx, 'wirekind', 'assign(%d, %s)' % (wa + 2, px),
+                      'ilshift (Some %d) (OWire a)' % (wa + 2), lambda va, vb: (va, wa + 2)))
+    return L
+
+
 def kind_tag(kind):
     t = kind[0]
     if t == 'const':
@@ -490,11 +588,31 @@ class Built(object):
     pass
 
 
-def build_design(insts, wa, wb):
+def build_design(insts, wa, wb, wirekinds=False):
+    """-> (per instance (error class | None, len), kwargs for Simulation, container mutations)"""
     pyrtl.reset_working_block()
     a = pyrtl.Input(wa, 'a')
     b = pyrtl.Input(wb, 'b') if wb is not None else None
     env = dict(ENV, a=a, b=b)
+    simkw = {}
+    if b is not None:
+        env.update(L2=[a, b], L3=[a, b, a], T2=(a, b))
+    if wirekinds:
+        mvm = {}
+        for nm, w, src in (('a', wa, a), ('b', wb, b)):
+            wv = pyrtl.WireVector(w, 'wv_' + nm)
+            wv <<= src
+            reg = pyrtl.Register(w, 'reg_' + nm)
+            reg.next <<= src
+            mem = pyrtl.MemBlock(bitwidth=w, addrwidth=w, name='mem_' + nm, max_read_ports=None,
+                                 asynchronous=True)
+            rom = pyrtl.RomBlock(bitwidth=w, addrwidth=w, romdata=list(range(1 << w)), name='rom_' + nm,
+                                 max_read_ports=None, asynchronous=True)
+            mvm[mem] = {x: x for x in range(1 << w)}
+            env.update({'wv_' + nm: wv, 'reg_' + nm: reg, 'mem_' + nm: mem, 'rom_' + nm: rom})
+        simkw['memory_value_map'] = mvm
+    containers = {k: (v, list(v)) for k, v in env.items() if k in ('L2', 'L3', 'T2')}
+    mutated = []
     res = []
     for k, inst in enumerate(insts):
         try:
@@ -503,8 +621,12 @@ def build_design(insts, wa, wb):
             o = pyrtl.Output(n, 'o%d' % k)
             o <<= r
             res.append((None, n))
-        except (pyrtl.PyrtlError, pyrtl.PyrtlInternalError, IndexError, ValueError, TypeError) as e:
+        except (pyrtl.PyrtlError, pyrtl.PyrtlInternalError, IndexError, ValueError, TypeError, AttributeError) as e:
             res.append((type(e).__name__, None))
+        for cname, (obj, pristine) in containers.items():
+            if [id(x) for x in obj] != [id(x) for x in pristine]:
+                mutated.append((k, cname, [x.name for x in pristine], [getattr(x, 'name', '?') for x in obj]))
+                containers[cname] = (obj, list(obj))   # report each change once; do not undo it
     # an instance that raised half-way may leave declared-but-unconnected wires behind
     blk = pyrtl.working_block()
     used = set()
@@ -514,18 +636,23 @@ def build_design(insts, wa, wb):
     for w in list(blk.wirevector_set):
         if w not in used and not isinstance(w, pyrtl.Input):
             blk.remove_wirevector(w)
-    return res
+    return res, simkw, mutated
 
 
-def simulate(res, wa, wb, points):
-    sim = pyrtl.Simulation()
+def simulate(res, wa, wb, points, simkw=None, settle=1):
+    """one row per operand point; `settle` steps per point (2 when registers carry the operands)"""
+    kw = dict(simkw or {})
+    if 'memory_value_map' in kw:
+        kw['memory_value_map'] = {m: dict(c) for m, c in kw['memory_value_map'].items()}
+    sim = pyrtl.Simulation(**kw)
     rows = []
     live = [k for k, (err, n) in enumerate(res) if err is None]
     for (va, vb) in points:
         ins = {'a': va}
         if wb is not None:
             ins['b'] = vb
-        sim.step(ins)
+        for _ in range(settle):
+            sim.step(ins)
         rows.append({k: sim.inspect('o%d' % k) for k in live})
     return rows
 
@@ -622,6 +749,10 @@ def make_jobs(ctx, only=None):
             jobs.append(Job('unary', unary_instances(r, wa, tier, False), wa, None, pts, False))
         if wa in kw:
             jobs.append(Job('kinds', kind_instances(ctx.sub_rng('kinds', wa), wa, tier), wa, None, pts, False))
+    # every kind of WireVector operand (plain, Register, lazy memory / ROM read), either side
+    for (wa, wb) in ([(1, 2), (2, 1), (2, 2)] if tier == 'quick' else [(1, 1), (2, 3), (3, 2), (3, 3), (4, 1), (1, 4), (5, 4)]):
+        jobs.append(Job('wirekinds', wirekind_instances(wa, wb), wa, wb,
+                        [(x, y) for x in range(1 << wa) for y in range(1 << wb)], True))
     # large-magnitude int / Const(int) / string operands (both tiers)
     r = ctx.sub_rng('bigconst')
     jobs.append(Job('bigconst', bigconst_instances(8), 8, None,
@@ -633,8 +764,19 @@ def make_jobs(ctx, only=None):
 
 def run_job(ctx, job, model_rows):
     """compare implementation with the spec (search) and with the model (tie)"""
-    res = build_design(job.insts, job.wa, job.wb)
-    rows = simulate(res, job.wa, job.wb, job.points)
+    wk = job.tag == 'wirekinds'
+    res, simkw, mutated = build_design(job.insts, job.wa, job.wb, wirekinds=wk)
+    rows = simulate(res, job.wa, job.wb, job.points, simkw, settle=2 if wk else 1)
+    for (k, cname, before, after) in mutated:
+        inst = job.insts[k]
+        sig = '%s:mutates-argument' % inst.name.split(':')[0]
+        ctx.spec_violation(sig, '%s: `%s` changed the caller\'s argument container %s from %s to %s (len(a)=%s len(b)=%s); '
+                           'operator calls must leave their arguments alone' % (sig, inst.src, cname, before, after,
+                                                                                  job.wa, job.wb),
+                           {'tier': ctx.tier, 'seed': ctx.seed, 'job': [job.tag, job.wa, job.wb], 'instance': inst.name,
+                            'python': inst.src, 'container': cname, 'before': before, 'after': after,
+                            'len_a': job.wa, 'len_b': job.wb,
+                            'calls_before_it': [i.src for i in job.insts[:k] if cname in i.src]})
     for k, inst in enumerate(job.insts):
         err, n = res[k]
         mrow = model_rows[k] if model_rows is not None else None
@@ -681,9 +823,12 @@ def run_job(ctx, job, model_rows):
                     what_kind = 'width'
                 else:
                     what_kind = 'value'
-                sig = '%s:%s' % (inst.name, what_kind)
-                ctx.spec_violation(sig, '%s: `%s` with len(a)=%s len(b)=%s a=%s b=%s gives %s, specification says %s'
-                                   % (sig, inst.src, job.wa, job.wb, va, vb, got, exp), rep)
+                if inst.group == 'wirekind':   # one signature per operator; the operand kinds are in the text
+                    sig = '%s:wire-operand-kinds:%s' % (inst.name.split(':')[0], what_kind)
+                else:
+                    sig = '%s:%s' % (inst.name, what_kind)
+                ctx.spec_violation(sig, '%s [%s]: `%s` with len(a)=%s len(b)=%s a=%s b=%s gives %s, specification says %s'
+                                   % (sig, inst.name, inst.src, job.wa, job.wb, va, vb, got, exp), rep)
         # ---- tie: implementation vs Coq model
         if mrow is not None:
             for t, (va, vb) in enumerate(job.points):
